@@ -43,4 +43,17 @@ PROPS = {
                   "round trip, bucket edges); VERIF_TICK_SWEEP_STRIDE=1 enumerates all 6.1e8 ticks (about 40 min on 16 cores)"],
   "explanation": "theorems: out-of-range rejection, spacing rounding spec, bucket containment of the sqrt-price search; model tied by differential run",
  },
+ "C18": {
+  "modules": ["OsmoVerif.Props.C18"],
+  "min_theorems": 9,
+  "fingerprints": [],
+  "engines": [{"name": "mint", "kind": "app", "n": {"quick": 3000, "thorough": 60000}, "shards": {"quick": 4, "thorough": 16}}],
+  "rule": "histories = random valid parameter set (proportions summing to 1 with 1..18 decimals, reduction factor/period, start epoch, 0..4 weighted "
+          "receivers incl. empty addresses, drained vesting account) followed by consecutive epoch numbers fed to the real AfterEpochEnd; "
+          "an evaluation is one epoch call; non-trivial = epoch at/after the start epoch; distinct = distinct (history, epoch) op lines",
+  "trusted_base": ["cosmos-sdk bank/distribution keepers (modelled as ledgers)", "epoch hook wrapper's cache-context atomicity (reproduced by the engine)"],
+  "assumptions": ["pool-incentives AllocateAsset runs with an empty distribution table in the engine (everything forwarded to the community pool)"],
+  "explanation": "theorems: allocation sums to the minted amount with truncated proportions and an empty mint account, reported-supply delta formula, "
+                 "reduction exactly once per period over any number of consecutive epochs (induction), no mint before start; tied by differential run through the real keepers",
+ },
 }
